@@ -247,8 +247,8 @@ def workdir(tag):
 
 
 def run_tlc(wd, module, cfg, workers=1, timeout=600, env_extra=None, simulate=None, depth=None, heap="4g",
-            extra=(), coverage=False, seed=None):
-    meta = os.path.join(wd, "meta_%s_%d" % (cfg.replace(".cfg", ""), os.getpid()))
+            extra=(), coverage=False, seed=None, meta_tag=""):
+    meta = os.path.join(wd, "meta_%s_%d%s" % (cfg.replace(".cfg", ""), os.getpid(), meta_tag))
     shutil.rmtree(meta, ignore_errors=True)
     cmd = ["java", "-XX:+UseParallelGC", "-Xmx" + heap, "-cp", TLC_JAR + ":/opt/veriftools/tla/CommunityModules-deps.jar",
            "tlc2.TLC", "-workers", str(workers), "-noGenerateSpecTE", "-metadir", meta, "-config", cfg]
@@ -284,10 +284,11 @@ def run_tlc(wd, module, cfg, workers=1, timeout=600, env_extra=None, simulate=No
         r.post_false = True
     if "Deadlock reached" in out:
         r.deadlock = True
-    for ln in out.splitlines():
-        m = re.match(r'^<<"([A-Z_]+)", (.*)>>$', ln)
-        if m:
-            r.prints.append((m.group(1), m.group(2)))
+    # PrintT(<<"TAG", value>>): TLC's pretty printer may break a long tuple over several lines
+    for m in re.finditer(r'^<<\s*"([A-Z_]+)",\s*(.*?)\s*>>$', out, re.M | re.S):
+        if "\n<<" in m.group(2):
+            continue
+        r.prints.append((m.group(1), m.group(2)))
     if rc == 124:
         r.error = "TLC timed out after %ss" % timeout
     elif not (r.generated or r.violated or r.deadlock) and ("Error:" in out or "error" in out.lower()):
